@@ -60,6 +60,8 @@ pub fn fdbl(a: Sym) -> Sym { mk(Node::Dbl(a)) }
 pub fn decide(kind: &str, eqs: Vec<(Sym, Sym)>) -> bool {
     ST.with(|s| {
         let mut s = s.borrow_mut();
+        // consistency: a condition already decided on this path keeps its answer (no new oracle query)
+        for c in s.conds.iter() { if c.1 == eqs { return c.2; } }
         let d = if s.dpos < s.decisions.len() { s.decisions[s.dpos] } else { s.decisions.push(false); false };
         s.dpos += 1;
         s.conds.push((kind.to_string(), eqs, d));
@@ -190,3 +192,4 @@ pub fn cond_count() -> usize { ST.with(|s| s.borrow().conds.len()) }
 pub fn cond_sides(i: usize) -> (Vec<Sym>, Vec<Sym>) {
     ST.with(|s| { let s = s.borrow(); let c = &s.conds[i]; (c.1.iter().map(|e| e.0).collect(), c.1.iter().map(|e| e.1).collect()) })
 }
+pub fn cond_taken(i: usize) -> bool { ST.with(|s| { let s = s.borrow(); i < s.conds.len() && s.conds[i].2 }) }
